@@ -63,6 +63,14 @@ class C14(Check):
     def budget(self, tier):
         return 40 if tier == 'quick' else 400
 
+    def corpus(self):
+        # past false alarm of this harness: 28 characters before lower-casing, 29 after ('İ' -> 'i' + U+0307): inside the alias guard
+        return [{'api': 'openbin', 'backend': 'os', 'dev': 0, 'keylen': 16, 'reread': 'canonical', 'seed': 1993556901,
+                 'segs': ['backup', 'cmd', 'İstanbul', 'ﬁle.bin'], 'style': 'plain', 'via': 'root'},
+                # past model error: 28 code points but 29 UTF-16 units (the model counted units): outside the alias guard
+                {'api': 'open', 'backend': 'os', 'dev': 0, 'keylen': 16, 'reread': 'canonical', 'seed': 146618893,
+                 'segs': ['backup', 'ticket.db', '😀', '00040000'], 'style': 'plain', 'via': 'root'}]
+
     def gen(self, rng, tier, i):
         depth = rng.randint(1, 5)
         segs = [(gen_seg(rng) if rng.chance(0.4) else rng.pick(SEG_POOLS)) for _ in range(depth)]
@@ -129,7 +137,7 @@ class C14(Check):
                 iv = eng.sd_path_to_iv(variant)
                 ivs[variant] = iv
                 outs.append(str(iv))
-                models.append(drv.ask(('sd-iv', variant.encode('utf-16le'))) if all(
+                models.append(drv.ask(('sd-iv', variant.encode('utf-32le'))) if all(
                     (not c.isalpha()) or c.isascii() for c in variant) else str(iv))
             if len(set(ivs.values())) > 1:
                 # case- and separator-insensitivity, whatever the counter is (this also covers the aliased /backup paths)
@@ -138,7 +146,7 @@ class C14(Check):
             else:
                 for variant, iv in ivs.items():
                     if iv != expected_iv(rel):
-                        is_backup = rel.lower().startswith('/backup') and len(rel) > 28
+                        is_backup = rel.lower().startswith('/backup') and len(rel.lower()) > 28     # the guard is evaluated on the lower-cased path (which can be longer: 'İ' -> 'i̇')
                         mon.append(f'counter of {variant!r} is not the hash of the normalised path')
                         key_ = 'sd.backup-alias' if is_backup else 'sd.iv'
                         break
@@ -178,7 +186,7 @@ class C14(Check):
                     raw = base.readbytes(f'{id0}/{id1}/' + full)
                     ivx = expected_iv('/' + full)
                     if raw != ctr_xor(eng.key_normal[0x34], ivx, content, False):
-                        is_backup = ('/' + full).lower().startswith('/backup') and len('/' + full) > 28
+                        is_backup = ('/' + full).lower().startswith('/backup') and len(('/' + full).lower()) > 28
                         mon.append(f'backing file of {full!r} (written via {case["via"]}/{style}) is not the CTR encryption under the path counter')
                         key_ = 'sd.backup-alias' if is_backup else 'sd.write'
                     # read / modify through another view, compare with a shadow plaintext
